@@ -2,6 +2,7 @@ import HmcVerif.Model.Bounds
 import HmcVerif.Model.Metropolis
 import HmcVerif.Real.Ext
 import HmcVerif.Real.Reflect
+import HmcVerif.Real.Fold
 import HmcVerif.Props.C02
 import Mathlib.Tactic.Linarith
 /-
@@ -84,18 +85,35 @@ theorem updateBounds_commit {V : Type} (clash : V → V → Bool) (old : Option 
 /-- below the lower bound (mirror image not above the upper one): mirrored and negated -/
 theorem reflect_mirrors_low (l : ℝ) (ub : Option ℝ) (x p : ℝ) (h : x < l)
     (hu : ∀ u, ub = some u → 2 * l - x ≤ u) :
-    reflect1 (some l) ub x p = (2 * l - x, -p) := reflect1_low l ub x p h hu
+    correctorR (some l) ub x p = (2 * l - x, -p) := by
+  have e := reflect1_low l ub x p h hu
+  rw [correctorR_eq_reflect1 _ _ _ _ (by rw [e]; exact ⟨fun l' hl' => by cases hl'; simp only; linarith, fun u hu' => hu u hu'⟩), e]
 
-theorem reflect_mirrors_high (lb : Option ℝ) (u : ℝ) (x p : ℝ) (h : u < x) (hl : ∀ l, lb = some l → l ≤ x) :
-    reflect1 lb (some u) x p = (2 * u - x, -p) := reflect1_high lb u x p h hl
+theorem reflect_mirrors_high (lb : Option ℝ) (u : ℝ) (x p : ℝ) (h : u < x) (hl : ∀ l, lb = some l → l ≤ 2 * u - x) :
+    correctorR lb (some u) x p = (2 * u - x, -p) := by
+  by_cases hx : ∀ l, lb = some l → l ≤ x
+  · have e := reflect1_high lb u x p h hx
+    rw [correctorR_eq_reflect1 _ _ _ _ (by rw [e]; exact ⟨fun l hl' => hl l hl', fun u' hu' => by cases hu'; simp only; linarith⟩), e]
+  · -- x is above the upper bound and below the lower one: an empty box, excluded by the mirror-image hypothesis
+    push Not at hx
+    obtain ⟨l, hl', hlx⟩ := hx
+    have := hl l hl'
+    linarith
 
 /-- a coordinate inside its bounds is untouched, and so is its momentum -/
 theorem reflect_untouched_inside (lb ub : Option ℝ) (x p : ℝ) (h : inBox1 lb ub x) :
-    reflect1 lb ub x p = (x, p) := reflect1_inside lb ub x p h
+    correctorR lb ub x p = (x, p) := by
+  have e := reflect1_inside lb ub x p h
+  rw [correctorR_eq_reflect1 _ _ _ _ (by rw [e]; exact h), e]
 
 /-- the momentum is only ever negated: kinetic energy of unit/diagonal metrics is conserved -/
 theorem reflect_conserves_kinetic1 (lb ub : Option ℝ) (x p w : ℝ) :
-    w * (reflect1 lb ub x p).2 ^ 2 = w * p ^ 2 := by rw [reflect1_momentum_sq]
+    w * (correctorR lb ub x p).2 ^ 2 = w * p ^ 2 := by rw [correctorR_momentum_sq]
+
+/-- whatever the overshoot, the corrected coordinate of a two-sided box lies in the box -/
+theorem corrector_lands_in_box (l u x p : ℝ) (hlu : l < u) :
+    l ≤ (correctorR (some l) (some u) x p).1 ∧ (correctorR (some l) (some u) x p).1 ≤ u :=
+  correctorR_in_box l u x p hlu
 
 /-! ### every chain started inside stays inside, with a misfit that is not +inf/NaN -/
 
